@@ -1,6 +1,15 @@
 package main
 
-// dispatch routes the other subcommands (added as the families grow).
+// subcommands registered by the other files of this package (func init() { register("name", fn) }).
+var subcommands = map[string]func(args []string){}
+
+func register(name string, fn func(args []string)) { subcommands[name] = fn }
+
 func dispatch(cmd string, args []string) bool {
-	return false
+	fn, ok := subcommands[cmd]
+	if !ok {
+		return false
+	}
+	fn(args)
+	return true
 }
